@@ -2782,6 +2782,7 @@ impl<E: Effect> Executor<E> {
             (Value::Builtin(a), Value::Builtin(b)) => a == b,
             (Value::Process(a, func_a), Value::Process(b, func_b)) => a == b && func_a == func_b,
             (Value::Reference(a), Value::Reference(b)) => a == b,
+            (Value::Resource(a, type_a), Value::Resource(b, type_b)) => a == b && type_a == type_b,
             _ => false,
         }
     }
